@@ -133,10 +133,47 @@ class Check:
         for idx, (status, res) in enumerate(results):
             if status == "ok":
                 self.merge(res, plane)
+            elif status == "isolated":
+                pass
             elif hang_is_violation is not None and hang_is_violation(idx, status, res):
                 pass
             else:
                 self.harness_errors.append(f"{plane or ''} shard {idx}: {status}: {str(res)[-1500:]}")
+
+    def isolate(self, func_path, tasks, results, split, case_of, sig_of, soft: float = 600.0):
+        """For every task whose worker died or hung: run each of its cases alone (`split(task)` -> single-case
+        tasks).  A case that takes the interpreter down in two fresh processes is a violation with
+        `sig_of(single)`/`case_of(single)`; the cases that survive are merged as usual.  Returns the results
+        with the dead entries replaced by ("isolated", None) when every death could be attributed to a case."""
+        from mc.core.pool import Pool
+
+        out = list(results)
+        for i, (status, res) in enumerate(results):
+            if status not in ("crash", "hang"):
+                continue
+            singles = split(tasks[i])
+            if not singles:
+                continue
+            with Pool(tag="vpi") as pool:
+                second = pool.map(func_path, singles, soft=soft)
+            culprits = []
+            for s, (st, r) in zip(singles, second):
+                if st == "ok":
+                    self.merge(r)
+                elif st in ("crash", "hang"):
+                    with Pool(1, tag="vpj") as pool:
+                        st2, r2 = pool.map(func_path, [s], soft=soft)[0]
+                    if st2 == st:
+                        culprits.append(s)
+                        self.violation(sig_of(s, st), f"the interpreter {'died (exit %s)' % r2 if st == 'crash' else 'hung'} while processing this case, twice, each time in a fresh process", case_of(s))
+                    elif st2 == "ok":
+                        self.merge(r2)
+                        self.counters["death_not_reproduced_alone"] = self.counters.get("death_not_reproduced_alone", 0) + 1
+                else:
+                    self.harness_errors.append(f"isolated case: {st}: {str(r)[-800:]}")
+            if culprits:
+                out[i] = ("isolated", None)
+        return out
 
     def violation(self, sig: dict, what: str, case):
         self.violations.append({"sig": jsonable(sig), "what": what, "case": jsonable(case)})
